@@ -9,16 +9,20 @@ approximated at byte level), the module names each import spelling asks the impo
 importer opens (`importer.readFileWithExtensions`: `filepath.Join(dir, name+ext)`).
 Paths are byte lists as in C13; `filepath.Join/Clean` are C13's `join2/cleanStr`.
 
-Part B (state machine): `vm.importModule` with the per-VM `modules` cache and `loadedCode`
+Part B (state machine): `vm.importModule` with the per-VM `modules` cache, the list
+`vm.importing` of the modules whose body is being evaluated and the `loadedCode`
 map (keyed by the IDENTITY of the compiled code object, as `map[*compiler.Code]*code` is), the
 importer (by-name code cache; every `parseAndCompile` yields a new code object; `Env.reuse`
 is the hook through which an importer could hand out an existing code object instead),
 module frames with the globals array of their code object, `op.Import`,
-`op.FromImport` (try `parent/name` as a module, else attribute of the parent; operand-stack
-residue of module bodies included), `try`, spawned clones (`vm.Clone` snapshots the maps).
-The model is the code AS IT IS: a failed body is not cached, a cyclic import re-enters the
-body until the frame array overflows, a clone imports into its own snapshot, and a module
-body leaves one value on the importer's operand stack (a failed body: the top of its own stack).
+`op.FromImport` (per listed name: try `parent/name` as a module, else attribute of the parent;
+exactly one value pushed per name), `try`, spawned clones (`vm.Clone` snapshots the maps and
+starts with nothing being imported).
+The model is the code AS IT IS: a failed body is not cached (a later import runs it again), a
+clone imports into its own snapshot; an import of a module whose body is still running is
+refused with an import error (cyclic import), and a module body leaves NOTHING on the
+importer's operand stack.  The last two are repairs (`fix:` commits in /repo); the machine as
+it was before them is kept in `PreFix.lean`.
 
 Core Lean only.
 -/
@@ -139,6 +143,7 @@ def LocalImporter (env : Env) : Prop := ∀ cache name, env.reuse cache name = n
 structure St where
   cache : List (Path × Nat) := []      -- vm.modules: name → module object
   loaded : List (Nat × Nat) := []      -- vm.loadedCode (root codes): code identity → globals array
+  importing : List Path := []          -- vm.importing: modules whose body is being evaluated (head = innermost)
   heap : List (List (Path × Val)) := [[]]  -- globals arrays; 0 is the main script's
   objs : List (Path × Nat) := []       -- every module object ever created: (name, globals array)
   compiled : List (Path × Nat) := []   -- importer.codeCache: module name → identity of its compiled code object
@@ -148,11 +153,11 @@ structure St where
   opens : List Path := []              -- every file the importer tried to open, in order
   ticks : List Path := []              -- module body executions, in order
   failed : List Path := []             -- imports whose body did not complete
-  reent : List Path := []              -- bodies entered while the same module was still being imported
+  cycles : List Path := []             -- imports refused because the module's own body was still running
   spawns : Nat := 0                    -- imports performed in spawned clones
-  misbinds : Nat := 0                  -- from-import statements that bound a stack residue
   reruns : List (Path × Nat) := []     -- body executions beyond a module's first, with the cause:
-                                       -- 1 re-entrant (cyclic) import, 2 an earlier run failed, 3 another VM (clone) ran it
+                                       -- 2 an earlier run failed, 3 another VM (clone) ran it
+                                       -- (cause 1, a re-entrant import, existed before the repair: see PreFix.lean)
   nofuel : Bool := false
   deriving Repr
 
@@ -160,10 +165,11 @@ inductive Out where
   | ok | err | panic
   deriving DecidableEq, Repr
 
+/-- result of `vm.importModule`: outcome and module object.  The importer's operand stack is as
+    it was before the call (the deferred frame restore drops whatever the body left). -/
 structure IRes where
   out : Out
   oid : Nat
-  junk : Option Val   -- the call left this extra value on the caller's operand stack
   deriving Repr
 
 def setKey (k : Path) (v : Val) : List (Path × Val) → List (Path × Val)
@@ -220,106 +226,106 @@ def attrOf (env : Env) (st : St) (parent : Path) (oid : Nat) (nm : Path) : Optio
       | none => none
     else none
 
+/-- what `op.FromImport` pushes for ONE listed name: the module `parent/name` if importing it
+    succeeds, else (whatever the error was) the attribute `name` of the module `parent` -/
+def fromOne (imp : ImpFn) (env : Env) (depth : Nat) (parent nm : Path) (st : St) : (Out × Val) × St :=
+  let r1 := imp depth st (parent ++ 47 :: nm)
+  match r1.1.out with
+  | .ok => ((.ok, .mod r1.1.oid), r1.2)
+  | .panic => ((.panic, .nil), r1.2)
+  | .err =>
+    let r2 := imp depth r1.2 parent
+    match r2.1.out with
+    | .ok =>
+      match attrOf env r2.2 parent r2.1.oid nm with
+      | some v => ((.ok, v), r2.2)
+      | none => ((.err, .nil), r2.2)
+    | o => ((o, .nil), r2.2)
+
 /-- the loop of `op.FromImport`: names in processing order (reverse of the source order),
-    `ps` is the operand stack built so far (head = top; the Bool marks a residue value). -/
+    `ps` is the operand stack built so far (head = top): exactly one value per name. -/
 def fromLoop (imp : ImpFn) (env : Env) (depth : Nat) (parent : Path) :
-    List Path → St → List (Val × Bool) → (Out × List (Val × Bool)) × St
+    List Path → St → List Val → (Out × List Val) × St
   | [], st, ps => ((.ok, ps), st)
   | nm :: rest, st, ps =>
-    let r1 := imp depth st (parent ++ 47 :: nm)
-    let ps1 := match r1.1.junk with | some j => (j, true) :: ps | none => ps
-    match r1.1.out with
-    | .ok => fromLoop imp env depth parent rest r1.2 ((Val.mod r1.1.oid, false) :: ps1)
-    | .panic => ((.panic, ps1), r1.2)
-    | .err =>
-      let r2 := imp depth r1.2 parent
-      let ps2 := match r2.1.junk with | some j => (j, true) :: ps1 | none => ps1
-      match r2.1.out with
-      | .ok =>
-        match attrOf env r2.2 parent r2.1.oid nm with
-        | some v => fromLoop imp env depth parent rest r2.2 ((v, false) :: ps2)
-        | none => ((.err, ps2), r2.2)
-      | .err => ((.err, ps2), r2.2)
-      | .panic => ((.panic, ps2), r2.2)
+    let r := fromOne imp env depth parent nm st
+    match r.1.1 with
+    | .ok => fromLoop imp env depth parent rest r.2 (r.1.2 :: ps)
+    | o => ((o, ps), r.2)
 
-/-- the `StoreGlobal`s after `op.FromImport`: one pop per listed item, in source order -/
+/-- the `StoreGlobal`s after `op.FromImport`: one pop per listed item, in source order;
+    returns the state and what is left of the values pushed by the instruction -/
 def bindItems (all : List (Path × Path)) (g : Nat) :
-    List (Path × Path) → List (Val × Bool) → St → St × List (Val × Bool)
+    List (Path × Path) → List Val → St → St × List Val
   | [], ps, st => (st, ps)
   | _ :: _, [], st => (st, [])
-  | (nm, _) :: rest, (v, _) :: ps, st => bindItems all g rest ps (st.store g (aliasOf all nm) v)
+  | (nm, _) :: rest, v :: ps, st => bindItems all g rest ps (st.store g (aliasOf all nm) v)
 
 /-- one top-level statement executed in the frame whose globals array is `g`, at frame
-    index `depth`; `left` = residue values on this frame's operand stack (head = top). -/
-def execStmt (imp : ImpFn) (env : Env) (g depth : Nat) (st : St) (left : List Val) :
-    Stmt → (Out × List Val) × St
+    index `depth` -/
+def execStmt (imp : ImpFn) (env : Env) (g depth : Nat) (st : St) : Stmt → Out × St
   | .imp name alias =>
     let r := imp depth st name
-    let left' := match r.1.junk with | some j => j :: left | none => left
     match r.1.out with
-    | .ok => ((.ok, left'), r.2.store g alias (.mod r.1.oid))
-    | o => ((o, left'), r.2)
+    | .ok => (.ok, r.2.store g alias (.mod r.1.oid))
+    | o => (o, r.2)
   | .fromImp parent items =>
     let r := fromLoop imp env depth parent (items.map (·.1)).reverse st []
     match r.1.1 with
-    | .ok =>
-      let wrong := (r.1.2.take items.length).any (·.2)
-      let st1 := if wrong then { r.2 with misbinds := r.2.misbinds + 1 } else r.2
-      let b := bindItems items g items r.1.2 st1
-      ((.ok, b.2.map (·.1) ++ left), b.1)
-    | o => ((o, r.1.2.map (·.1) ++ left), r.2)
-  | .set var val => ((.ok, left), st.store g var (.int val))
+    | .ok => (.ok, (bindItems items g items r.1.2 r.2).1)
+    | o => (o, r.2)
+  | .set var val => (.ok, st.store g var (.int val))
   | .setVia alias var val =>
     match (st.globals g).lookup alias with
     | some (.mod o) =>
       match st.objs[o]? with
-      | some (_, g') => ((.ok, left), st.store g' var (.int val))
-      | none => ((.err, left), st)
-    | _ => ((.err, left), st)
+      | some (_, g') => (.ok, st.store g' var (.int val))
+      | none => (.err, st)
+    | _ => (.err, st)
   | .addVia alias var k =>
     match (st.globals g).lookup alias with
     | some (.mod o) =>
       match st.objs[o]? with
       | some (_, g') =>
         match (st.globals g').lookup var with
-        | some (.int i) => ((.ok, left), st.store g' var (.int (i + k)))
-        | _ => ((.err, left), st)
-      | none => ((.err, left), st)
-    | _ => ((.err, left), st)
-  | .newList var => ((.ok, left), st.store g var (.list []))
+        | some (.int i) => (.ok, st.store g' var (.int (i + k)))
+        | _ => (.err, st)
+      | none => (.err, st)
+    | _ => (.err, st)
+  | .newList var => (.ok, st.store g var (.list []))
   | .pushVia alias var v =>
     match (st.globals g).lookup alias with
     | some (.mod o) =>
       match st.objs[o]? with
       | some (_, g') =>
         match (st.globals g').lookup var with
-        | some (.list l) => ((.ok, left), st.store g' var (.list (l ++ [v])))
-        | _ => ((.err, left), st)
-      | none => ((.err, left), st)
-    | _ => ((.err, left), st)
+        | some (.list l) => (.ok, st.store g' var (.list (l ++ [v])))
+        | _ => (.err, st)
+      | none => (.err, st)
+    | _ => (.err, st)
   | .tryImp name =>
-    if depth + 1 ≥ env.limit then ((.panic, left), st)   -- the function's own frame
+    if depth + 1 ≥ env.limit then (.panic, st)   -- the function's own frame
     else
       let r := imp (depth + 1) st name
       match r.1.out with
-      | .panic => ((.panic, left), r.2)
-      | _ => ((.ok, left), r.2)
+      | .panic => (.panic, r.2)
+      | _ => (.ok, r.2)
   | .spawnImp name =>
-    let r := imp 1 { st with spawns := st.spawns + 1 } name
-    let st2 := { r.2 with cache := st.cache, loaded := st.loaded }
+    -- vm.Clone: snapshots of vm.modules and vm.loadedCode, an empty frame stack, nothing being imported
+    let r := imp 1 { st with spawns := st.spawns + 1, importing := [] } name
+    let st2 := { r.2 with cache := st.cache, loaded := st.loaded, importing := st.importing }
     match r.1.out with
-    | .ok => ((.ok, left), st2)
-    | o => ((o, left), st2)
-  | .fail => ((.err, left), st)
+    | .ok => (.ok, st2)
+    | o => (o, st2)
+  | .fail => (.err, st)
 
-def execStmts (imp : ImpFn) (env : Env) (g depth : Nat) :
-    List Stmt → St → List Val → (Out × List Val) × St
-  | [], st, left => ((.ok, left), st)
-  | s :: rest, st, left =>
-    let r := execStmt imp env g depth st left s
-    match r.1.1 with
-    | .ok => execStmts imp env g depth rest r.2 r.1.2
-    | o => ((o, r.1.2), r.2)
+def execStmts (imp : ImpFn) (env : Env) (g depth : Nat) : List Stmt → St → Out × St
+  | [], st => (.ok, st)
+  | s :: rest, st =>
+    let r := execStmt imp env g depth st s
+    match r.1 with
+    | .ok => execStmts imp env g depth rest r.2
+    | o => (o, r.2)
 
 /-- `importer.Import` on a code-cache miss reads the file (tries the extensions in order) -/
 def St.noteOpens (st : St) (env : Env) (name : Path) : St :=
@@ -351,50 +357,58 @@ def St.loadCode (st : St) (c : Nat) : St :=
 
 def St.fail (st : St) (name : Path) : St := { st with failed := st.failed ++ [name] }
 
-/-- a module body starts: `object.NewModule`, frame activation, first statement `tick(name)` -/
-def St.enter (st : St) (name : Path) (gid : Nat) (stack : List Path) : St :=
+/-- the import is refused: `import error: cyclic import of module "name"` -/
+def St.refuse (st : St) (name : Path) : St := { st with cycles := st.cycles ++ [name] }
+
+/-- a module body starts: `object.NewModule`, frame activation, `vm.importing = append(vm.importing, name)`,
+    first statement `tick(name)` -/
+def St.enter (st : St) (name : Path) (gid : Nat) : St :=
   { st with
     ticks := st.ticks ++ [name], objs := st.objs ++ [(name, gid)],
-    reent := if stack.contains name then st.reent ++ [name] else st.reent,
+    importing := name :: st.importing,
     reruns := if st.ticks.contains name then
-        st.reruns ++ [(name, if stack.contains name then 1 else if st.failed.contains name then 2 else 3)]
+        st.reruns ++ [(name, if st.failed.contains name then 2 else 3)]
       else st.reruns }
+
+/-- the deferred frame restore: `vm.importing = vm.importing[:len(vm.importing)-1]` -/
+def St.leave (st : St) : St := { st with importing := st.importing.tail }
 
 /-- `vm.modules[name] = module` -/
 def St.cacheAdd (st : St) (name : Path) (oid : Nat) : St := { st with cache := (name, oid) :: st.cache }
 
-/-- `vm.importModule(name)` at frame index `depth`; `stack` = the modules whose bodies are
-    still being evaluated (used only to name re-entrant imports). -/
-def importModule (env : Env) : Nat → List Path → ImpFn
-  | 0, _, _, st, name => (⟨.panic, 0, none⟩, ({ st with nofuel := true } : St).fail name)
-  | fuel + 1, stack, depth, st, name =>
+/-- `vm.importModule(name)` at frame index `depth` -/
+def importModule (env : Env) : Nat → ImpFn
+  | 0, _, st, name => (⟨.panic, 0⟩, ({ st with nofuel := true } : St).fail name)
+  | fuel + 1, depth, st, name =>
     match st.cache.lookup name with
-    | some oid => (⟨.ok, oid, none⟩, st)
+    | some oid => (⟨.ok, oid⟩, st)
     | none =>
-      -- importer.Import: code cache, else read the file
-      let st1 := st.noteOpens env name
-      match bodyOf env name env.exts with
-      | none => (⟨.err, 0, none⟩, st1)
-      | some body =>
-        let st2 := st1.noteCompiled env name
-        let cid := st2.codeOf name
-        let gid := st2.gidOf cid
-        let st3 := st2.loadCode cid
-        if depth + 1 ≥ env.limit then
-          (⟨.panic, 0, none⟩, st3.fail name)      -- frames[fp+1]: index out of range
-        else
-          let oid := st3.objs.length
-          let r := execStmts (importModule env fuel (name :: stack)) env gid (depth + 1) body
-            (st3.enter name gid stack) []
-          match r.1.1 with
-          | .ok => (⟨.ok, oid, some .nil⟩, r.2.cacheAdd name oid)   -- the body's result (nil: bodies end in an assignment)
-          | o => (⟨o, 0, r.1.2.head?⟩, r.2.fail name)       -- resumeFrame keeps the top of the failed frame's stack
+      -- a module whose body is still running is not cached yet: importing it again is an error
+      if st.importing.contains name then (⟨.err, 0⟩, st.refuse name)
+      else
+        -- importer.Import: code cache, else read the file
+        let st1 := st.noteOpens env name
+        match bodyOf env name env.exts with
+        | none => (⟨.err, 0⟩, st1)
+        | some body =>
+          let st2 := st1.noteCompiled env name
+          let cid := st2.codeOf name
+          let gid := st2.gidOf cid
+          let st3 := st2.loadCode cid
+          if depth + 1 ≥ env.limit then
+            (⟨.panic, 0⟩, st3.fail name)      -- frames[fp+1]: index out of range
+          else
+            let oid := st3.objs.length
+            let r := execStmts (importModule env fuel) env gid (depth + 1) body (st3.enter name gid)
+            match r.1 with
+            | .ok => (⟨.ok, oid⟩, r.2.leave.cacheAdd name oid)
+            | o => (⟨o, 0⟩, r.2.leave.fail name)
 
 def St.init : St := {}
 
 /-- one evaluation of a main script -/
-def run (env : Env) (fuel : Nat) (main : List Stmt) : (Out × List Val) × St :=
-  execStmts (importModule env fuel []) env 0 0 main St.init []
+def run (env : Env) (fuel : Nat) (main : List Stmt) : Out × St :=
+  execStmts (importModule env fuel) env 0 0 main St.init
 
 /-! ## Spec: what the property demands, as decidable predicates on the outcome -/
 
@@ -468,15 +482,13 @@ def dottedExt (e : Path) : Bool := e.head? == some 46
 def underRoot (root : Path) (p : Path) : Bool :=
   root.isEmpty || Risor.C13.hasPrefix p (cleanStr root ++ [47]) || cleanStr root == [47]
 
-/-- the guard naming today's three run-once defects: no import failed, no module was
-    imported while its own body was still running (cyclic import), nothing was imported
-    inside a spawned clone. -/
-def cleanRun (st : St) : Bool := st.failed.isEmpty && st.reent.isEmpty && st.spawns == 0
+/-- the guard naming today's two run-once defects: no import failed (a failed body is not
+    cached: the next import of the module runs it again), nothing was imported inside a spawned
+    clone.  (Before the cyclic-import repair the guard had a third conjunct, `st.reent.isEmpty`:
+    `PreFix.cleanRun`.) -/
+def cleanRun (st : St) : Bool := st.failed.isEmpty && st.spawns == 0
 
 /-- the same as a proposition -/
-def Clean (st : St) : Prop := st.failed = [] ∧ st.reent = [] ∧ st.spawns = 0
-
-/-- guard of the from-import defect: no from-import statement bound a stack residue -/
-def noResidueBound (st : St) : Bool := st.misbinds == 0
+def Clean (st : St) : Prop := st.failed = [] ∧ st.spawns = 0
 
 end Risor.C14
